@@ -77,6 +77,80 @@ def adv_vc(N, Kp, V, S, width):
                            "y_prev_lens omitted (all prefixes have full length S); finite scores; float arithmetic as real arithmetic"])
 
 
+def adv_p_vc():
+    """P rung: beam_search_advance for SYMBOLIC batch size N, old width K', vocabulary V, prefix length S and beam width (all prefixes
+    of full length: y_prev_lens omitted). top-k over a symbolic extent has the assumed contract of vf/pyvc/symtensor.py (in-range,
+    pairwise distinct indices; value = element at the index; non-increasing; unselected <= last selected). For a skolem batch element
+    and skolem slots: a slot below K = min(width, K' V) holds source s = index div V and token w = index mod V with
+    score = prev[s] + step[s, w], path = prefix of s followed by w, length S + 1; two different slots hold different (s, w);
+    slots are best-first; no candidate that was not selected beats a selected one; slots from K on are fillers (-inf, length 0)."""
+    import pydrobert.torch._decoding as D
+    from vf.pyvc import symtensor as stn
+
+    N, KP, V, S, W, N0, K0, K1, T0, A0, V0 = z3.Ints("N old_width V S width n0 k0 k1 t0 a0 v0")
+    LT = z3.Function("step_log_prob", z3.IntSort(), z3.IntSort(), z3.IntSort(), z3.RealSort())
+    LP = z3.Function("prev_log_prob", z3.IntSort(), z3.IntSort(), z3.RealSort())
+    Y = z3.Function("y_prev", z3.IntSort(), z3.IntSort(), z3.IntSort(), z3.IntSort())
+    KK = z3.If(W <= KP * V, W, KP * V)
+    name = "beam_search_advance[symbolic N, old width, V, S, width; full-length prefixes]"
+
+    def thunk(I):
+        I.stubs.update(stn.stubs())
+        lt = stn.ST((N, KP, V), lambda a, b, c: LT(ip.to_z3(a), ip.to_z3(b), ip.to_z3(c)), "float")
+        lp = stn.ST((N, KP), lambda a, b: LP(ip.to_z3(a), ip.to_z3(b)), "float")
+        y = stn.ST((S, N, KP), lambda a, b, c: Y(ip.to_z3(a), ip.to_z3(b), ip.to_z3(c)), "long")
+
+        def trunc_divide(I2, a, k):
+            x, d = a
+            return x._bin(I2, __import__("ast").FloorDiv(), d, False)  # indices are non-negative: trunc = floor
+
+        I.contracts["pydrobert.torch._compat.trunc_divide"] = trunc_divide
+        out = I.call(D.beam_search_advance, [lt, W, lp, y, None], {})
+        tk = I.ex.ghost["topks"][-1]
+        for x in (tk["at"](N0, K0), tk["at"](N0, K1), tk["distinct"](N0, K0, K1), tk["distinct"](N0, K1, K0), tk["ordered"](N0, K0, K1), tk["ordered"](N0, K0, KK - 1)):
+            I.ex.instance(x)
+        I.ex.instance(tk["optimal"](N0, A0 * V + V0), quantified_atoms=True)  # its "not selected" premise recurs verbatim in the goal
+        I.ex.ghost["tk"] = tk
+        return out
+
+    def post(p):
+        if not api.returns(p) or not isinstance(p.value, tuple) or len(p.value) != 4:
+            return False
+        y_next, lens, lpn, src = p.value
+        tk = p.ghost["tk"]
+        IDX = tk["IDX"]
+        s0, w0 = ip.to_z3(src.elem(N0, K0)), ip.to_z3(y_next.elem(S, N0, K0))
+        s1, w1 = ip.to_z3(src.elem(N0, K1)), ip.to_z3(y_next.elem(S, N0, K1))
+        real0, real1 = z3.And(0 <= K0, K0 < KK), z3.And(0 <= K1, K1 < KK)
+        sc = lambda k: ip.to_z3(ct.ng_split(lpn.elem(N0, k))[1])
+        fin = lambda k: z3.Not(ct.ng_split(lpn.elem(N0, k))[0]) if ip.is_z3(ct.ng_split(lpn.elem(N0, k))[0]) else z3.BoolVal(not ct.ng_split(lpn.elem(N0, k))[0])
+        shapes = z3.And(ip.to_z3(y_next.shape[0]) == S + 1, ip.to_z3(y_next.shape[1]) == N, ip.to_z3(y_next.shape[2]) == W, ip.to_z3(lpn.shape[0]) == N, ip.to_z3(lpn.shape[1]) == W,
+                        ip.to_z3(lens.shape[1]) == W, ip.to_z3(src.shape[1]) == W)
+        J = A0 * V + V0
+        cand_ok = z3.And(0 <= A0, A0 < KP, 0 <= V0, V0 < V)
+        divmod = z3.And(J / V == A0, J % V == V0, 0 <= J, J < KP * V)
+        return [("result_shapes", shapes),
+                ("index_of_a_candidate_splits_back_into_source_and_token", z3.Implies(cand_ok, divmod)),
+                ("slot_extends_its_source", z3.Implies(real0, z3.And(0 <= s0, s0 < KP, 0 <= w0, w0 < V, fin(K0), sc(K0) == LP(N0, s0) + LT(N0, s0, w0), ip.to_z3(lens.elem(N0, K0)) == S + 1,
+                                                                    z3.Implies(z3.And(0 <= T0, T0 < S), ip.to_z3(y_next.elem(T0, N0, K0)) == Y(T0, N0, s0))))),
+                ("different_slots_hold_different_candidates", z3.Implies(z3.And(real0, real1, K0 != K1), z3.Or(s0 != s1, w0 != w1))),
+                ("best_first", z3.Implies(z3.And(real0, real1, K0 <= K1), sc(K0) >= sc(K1))),
+                # cut: with the index arithmetic above proved, the contract's optimality clause at that index gives the bound
+                ("no_unselected_candidate_beats_a_selected_one", z3.Implies(z3.And(real0, cand_ok, divmod, tk["notsel"](N0, J)), LP(N0, A0) + LT(N0, A0, V0) <= sc(K0))),
+                ("slots_beyond_the_candidates_are_fillers", z3.Implies(z3.And(KK <= K0, K0 < W), z3.And(z3.Not(fin(K0)), ip.to_z3(lens.elem(N0, K0)) == 0)))]
+
+    pre = [N >= 1, KP >= 1, V >= 1, S >= 0, W >= 1, 0 <= N0, N0 < N]
+    return VC("C04.P.advance_step", name, M, "beam_search_advance", thunk, pre=pre, posts=[("advance_postcondition", post)], inputs={"N": N, "old_width": KP, "V": V, "S": S, "width": W},
+              timeout_ms=60000, twins=[("token_is_always_zero", lambda p: z3.Implies(z3.And(0 <= K0, K0 < KK), ip.to_z3(p.value[0].elem(S, N0, K0)) == 0) if api.returns(p) else None)],
+              assumptions=["topk over a symbolic extent: in-range pairwise distinct indices, value = element at the index, non-increasing, unselected <= last selected (assumed contract, no tie rule)",
+                           "flatten of two symbolic dimensions = row-major index split (i div V, i mod V); cat / gather / expand as index functions (vf/pyvc/symtensor.py); integer div / mod by the symbolic vocabulary size: solver arithmetic, products abstracted first",
+                           "y_prev_lens omitted (all prefixes have full length S); finite input scores; float arithmetic as real arithmetic"])
+
+
+def p_vcs(ctx):
+    return [adv_p_vc()]
+
+
 def vcs(ctx):
     shapes = [(1, 1, 2, 0, 2), (1, 2, 2, 1, 3), (1, 2, 2, 1, 5), (2, 1, 2, 1, 1)] if ctx.quick else \
         [(1, 1, 2, 0, 2), (1, 2, 2, 1, 3), (1, 2, 2, 1, 5), (2, 1, 2, 1, 1), (1, 2, 3, 2, 4), (1, 3, 2, 1, 6), (2, 2, 2, 1, 3)]
